@@ -31,6 +31,8 @@ PROPS = {
     "C04": {"modules": ["c04_schedule"], "level": "other", "bounded": []},
     "C06": {"modules": ["c03_task", "c04_schedule"], "level": "other", "bounded": []},
     "C11": {"modules": ["c04_schedule"], "level": "other", "bounded": []},
+    "C07": {"modules": ["c07_order", "c04_schedule"], "level": "other", "bounded": []},
+    "C09": {"modules": ["c07_order"], "level": "other", "bounded": []},
     "C10": {
         "modules": ["c10_containers", "c01_ledger"],
         "level": "other",
